@@ -458,6 +458,15 @@ theorem tie_namedFieldShape :
        "if valueKind == reflect.Slice || valueKind == reflect.Array {", "if val.Len() > 0 {", "call val.Index",
        "call val.Index(0).Interface", "}", "}", "}", "}", "call u.processNamedFieldWithValue", "return"] := by decide
 
+/-- `structValueRequired`: the cached answer is keyed by the tag key AND the type (a8b007f; keyed by the type alone the `json`
+unmarshaler was handed the `form` unmarshaler's answer: Props.structRequiredCache_witness) and computed for the caller's own
+tag key — the model has no cache: `absentRequired` asks `structRequired` about the fields as its own key reads them -/
+theorem tie_structRequiredCache :
+    structRequiredCacheUse =
+      ["cacheKey := requiredCacheKey{tag: tag, tp: tp}", "val, ok := structRequiredCache[cacheKey]",
+       "required, err := implicitValueRequiredStruct(tag, tp)", "structRequiredCache[cacheKey] = requiredCacheValue{…}"] := by
+  decide
+
 /-! ### round 4: front ends, glue between the packages, valuers -/
 
 /-- core/mapping/valuer.go: `simpleValuer` looks at the current node only; `Parent()` wraps the parent in a `recursiveValuer`;
